@@ -1035,7 +1035,7 @@ func cmdC16(seed int64, tier, outDir string) {
 	c16On, c16Off = c01FgOn, c01FgOff
 	n, maxNodes, nHist, nClo := 180, 36, 30, 40
 	if tier == "thorough" {
-		n, maxNodes, nHist, nClo = 30000, 100, 3000, 5000
+		n, maxNodes, nHist, nClo = 6000, 80, 600, 1000
 	}
 	sum := NewSummary("C16", seed, tier)
 	sum.Rule = "programs of the C01 generator (operators, let, func with recursion, closures up to 3+ levels, if, switch, try, list/map literals, methods, static functions) whose arguments all become attributes of one map argument; attribute uses at every nesting level (top level, inside 1..3+ closures, inside func bodies, inside lets within call arguments); attribute names that collide with constants (pi), static functions (sqr) and local bindings; about a third of the programs also MENTION THE MAP ARGUMENT BY NAME next to the implicit uses, at every nesting level (mq.x, mq.get(\"x\"), let k = mq; k.x, the map returned from a closure, passed to a function, \"x\" ~ mq, mq.size()) - qualification leaves those as they are; 3 maps per program, each in a representation of harness/tree.go (listmap, real, put, merge, replace, eval, map-method, funcmap, funcmap-absent, tomap); GenerateWithMap(exp) against Generate(exp with every free attribute written (m.x)), optimizer on and off; plus programs whose attributes hold CLOSURES THAT ARE CALLED (at top level, inside closures, in a recursive func, in a let value; the arguments of these calls contain binders: a let directly inside an argument, nested calls, immediately applied closures, closures handed to list methods) on list/real/put/merge maps, struct wrappers (NewToMap) with closure-valued fields and function maps with all, none or only some keys declared - GenerateWithMap(exp) against Generate with the attributes written (m.x) and against Generate with the attributes written m.x without parentheses (the called attribute as m.f(...)); plus HISTORIES of one generator object (4..12 operations: AddConstant with names of attributes and locals, GenerateWithMap with one or two alternating map names): every GenerateWithMap is checked on the generator of the history against Generate of the text qualified relative to the constants registered so far, the parser model and the reference semantics with exactly these constants, and functions generated earlier are re-evaluated after every later AddConstant. Distinct non-trivial: program texts with >= 1 attribute use inside a closure or func body that generate without error"
